@@ -1,5 +1,6 @@
 """C17 stdin mode writes the formatted text to stdout and nothing else - static necessary conditions."""
 import r_cli
+import r_cfg
 
 EXPLANATION = (
     "A-WHO over crate stylua: (R-STDOUT) every stdout writer is enumerated: println! only under "
@@ -14,4 +15,4 @@ ASSUMPTIONS = ["std::io::Write::write_all writes exactly its argument or reports
 
 def run(ctx):
     return [r_cli.rule_stdout(ctx, "C17", stdin_clause=True), r_cli.rule_fs(ctx, "C17", stdin_clause=True),
-            r_cli.rule_ignore_arg(ctx, "C17")]
+            r_cli.rule_ignore_arg(ctx, "C17"), r_cfg.rule_search_start(ctx, "C17")]
